@@ -711,7 +711,10 @@ def m_drop(e, args, info):
 @trait('FnOnce', 'call_once')
 def m_call(e, args, info):
     tup = args[1]
-    return e.call_closure(args[0], list(tup.f))
+    clo = args[0]
+    if e.deref(clo) is None and info[1].lstrip('&').startswith('{closure@'):
+        clo = Clo(info[1].lstrip('&').replace('mut ', ''), [])        # capture-less (zero-sized) closure: MIR never initialises the local
+    return e.call_closure(clo, list(tup.f))
 
 
 # =========================================================================== Vec / slices / Punctuated
